@@ -21,7 +21,18 @@ func (s *Store) snapshotRevert(revertTo Snapshot) error {
 		return fmt.Errorf("can only revert a footer")
 	}
 
-	fileNameCurr := FormatFName(s.nextFNameSeq - 1)
+	// The snapshot has to live in the file of the current footer.  That
+	// is not necessarily the file with the highest sequence number that
+	// was handed out: a full compaction that failed after it had created
+	// its file, or an incomplete newer file found when the store was
+	// opened, have used up sequence numbers, too.
+	var fileNameCurr string
+	if s.footer != nil {
+		fileNameCurr = s.footer.fileName
+	}
+	if fileNameCurr == "" {
+		fileNameCurr = FormatFName(s.nextFNameSeq - 1)
+	}
 	if fileNameCurr != revertToFooter.fileName {
 		return fmt.Errorf("snapshot too old, revertToSnapshot.fileName: %+v,"+
 			" fileNameCurr: %s", revertToFooter.fileName, fileNameCurr)
